@@ -64,14 +64,19 @@ def run(ctx):
     ac.setup(ctx)
     rng = ctx.rng
     dspecs = cases.gen_pool_specs(rng, ctx.scale(12, 30))
-    for _ in range(ctx.scale(110, 3000)):
+    for _ in range(ctx.scale(150, 3000)):
         if ctx.out_of_time():
             break
         dspec = rng.choice(dspecs)
         labels = cases.dissim_labels(dspec)
         n = rng.choice([2, 2, 3, 3, 4, 5])
-        cspec = cases.gen_continuum(rng, n_annot=n, max_units=rng.randint(1, MAXU[n]),
-                                    labels=labels or cases.LABELS_SMALL, min_total=2)
+        if rng.random() < 0.6:   # dense overlaps, 4-5 annotators: the solvers have to branch (measured: about one such
+            n = rng.choice([4, 4, 5])   # continuum in 60 makes GLPK stop early under a 1 % gap)
+            k = {4: 6, 5: 4}[n]
+            cspec = cases.gen_continuum(rng, n_annot=n, sizes=[k] * n, labels=labels or cases.LABELS_SMALL, family="dense")
+        else:
+            cspec = cases.gen_continuum(rng, n_annot=n, max_units=rng.randint(1, MAXU[n]),
+                                        labels=labels or cases.LABELS_SMALL, min_total=2)
         case = {"continuum": cspec, "dissim": dspec}
         nonempty = sum(1 for us in cspec["ann"].values() if us)
         ctx.begin_case(case, nontrivial=cases.spec_num_units(cspec) >= 2 and nonempty >= 2)
